@@ -32,23 +32,38 @@ def ownership(img, nblocks):
     f = fsck.fsck_image(img, 0, nblocks, want_data=False)
     own = {}
     bm = set()
-    for b, what in f.owner.items():
-        if what == "root": own[b] = ("root", None)
-        elif what.startswith("bitmap"): own[b] = ("bitmap", None); bm.add(b)
-        elif what.startswith("cache of dir"): own[b] = ("cache", None)
+    dirpath = {}
     def walk(node, path):
         for k in node.kids.values():
             p = path + (k.name,)
             if k.kind == 'dir':
-                own[k.block] = ("dir", p); walk(k, p)
+                own[k.block] = ("dir", p); dirpath[k.block] = p; walk(k, p)
             elif k.kind == 'file':
                 own[k.block] = ("fhdr", p)
                 for e in getattr(k, "exts", []): own[e] = ("fext", p)
                 for d in getattr(k, "datablocks", []): own.setdefault(d, ("fdata", p))
             else:
                 own[k.block] = ("link", p)
-    if f.root: walk(f.root, ())
+    if f.root:
+        dirpath[f.root.block] = ()
+        walk(f.root, ())
+    for b, what in f.owner.items():
+        if what == "root": own[b] = ("root", ())
+        elif what.startswith("bitmap"): own[b] = ("bitmap", None); bm.add(b)
+        elif what.startswith("cache of dir"):
+            d = int(what.split()[-1])
+            own[b] = ("cache", dirpath.get(d))
     return own, bm
+
+def dirs_of(a, target, cwd, fold):
+    """the directories whose metadata an operation may write: the parent of the object, the object itself, and for a move
+    the destination directory"""
+    ds = {tuple(cwd)}
+    if target is not None:
+        ds.add(tuple(target)); ds.add(tuple(target[:-1]))
+    if a[0] == "rename" and len(a) > 5:
+        ds.add(tuple(fold(bytes.fromhex(c)) for c in a[5:] if c != "/"))
+    return ds
 
 def judge(ops, cb, paths, dostype, nblocks):
     bad = []
@@ -81,11 +96,18 @@ def judge(ops, cb, paths, dostype, nblocks):
                 pages = [s for s, _ in writes if s in bm]
                 for s, line in writes:
                     kind, path = own.get(s, ("free", None))
-                    if kind in ("root", "bitmap", "free", "dir", "cache"): continue
-                    pf = tuple(fold(c) for c in path) if path else None
+                    if kind in ("bitmap", "free", "root"): continue      # the root block carries the bitmap-valid flag
+                    pf = tuple(fold(c) for c in path) if path is not None else None
+                    if kind in ("dir", "cache"):
+                        # directory metadata: of the object's own directories only (its parent, itself when it is a
+                        # directory, the destination of a move); a directory whose path could not be established is let pass
+                        if pf is None or pf in dirs_of(a, target, cwd, fold): continue
+                        if kind == "cache":
+                            bad.append(f"'{o}' (object {target}) wrote block {s}, which is the {kind} block of directory {path} — not a directory of the object")
+                            continue
                     if pf == target: continue
                     # another entry: only its chain link (and the checksum) may change
-                    if kind in ("fhdr", "link") and post is not None:
+                    if kind in ("fhdr", "link", "dir") and post is not None:
                         x, y = pre[s*512:(s+1)*512], post[s*512:(s+1)*512]
                         diff = [j for j in range(512) if x[j] != y[j]]
                         if all(20 <= j < 24 or 0x1f0 <= j < 0x1f4 for j in diff): continue
@@ -126,8 +148,8 @@ def run(res):
     exe = vlib.build_harness("asan")
     # volumes with one bitmap page (floppies) and with several (hardfiles of 3 and 4 pages: 9536 and 12400 blocks)
     mix = [("file", {"nops": 30}), ("extbound", {}), ("names", {"nops": 30}), ("file", {"nops": 25, "kind": 9536}), ("dirc", {"nops": 25}),
-           ("file", {"nops": 30, "nfiles": 3}), ("file", {"nops": 25, "kind": 12400, "nfiles": 2})]
-    n = 15 if res.tier == "quick" else 400
+           ("file", {"nops": 30, "nfiles": 3}), ("file", {"nops": 25, "kind": 12400, "nfiles": 2}), ("dircspill", {})]
+    n = 16 if res.tier == "quick" else 400
     specs = []
     for i in range(n):
         prof, kw = mix[i % len(mix)]
@@ -137,7 +159,7 @@ def run(res):
     def one(ops0):
         ops = instrument(ops0)
         cb, paths, tie, san, crash, fault, err = hist.run_plain(exe, ops, lean=True, timeout=150, want_err=True)
-        bad = [] if (san or crash) else judge_with_cwd(ops, cb, paths, hist.dostype_of(ops0), hist.nblocks_of(ops0))
+        bad = judge_partial(ops, cb, paths, ops0, san, crash)
         # second sentence of the property, observed on the real code by the harness at every single block write
         bo = vlib.bmorder_report(err)
         if bo: bad.insert(0, "bitmap update order: " + bo)
@@ -151,6 +173,24 @@ def run(res):
             for m in b: bad.append((ops0, m))
     res.cov["samples"] = [specs[0][6:14]]
     res.cov["traces_validated_against_impl"] = len(specs) - len(ties)
+    if not bad and ties:
+        # failing-input search: the correspondence broke (or the library did not return) without an oracle complaint; run
+        # more histories of every profile, with a short per-history limit, and judge each block write of those
+        extra = []
+        for k in range(9):
+            for prof, kw in mix:
+                extra.append([o for o in getattr(gen, "gen_" + prof)(vlib.rng_for(res.seed, f"C18x/{prof}/{k}"), **kw)])
+        def one_short(ops0):
+            ops = instrument(ops0)
+            cb, paths, tie, san, crash, fault, err = hist.run_plain(exe, ops, lean=False, timeout=25, want_err=True)
+            b = judge_partial(ops, cb, paths, ops0, san, crash)
+            bo = vlib.bmorder_report(err)
+            if bo: b.insert(0, "bitmap update order: " + bo)
+            return ops0, b
+        with ThreadPoolExecutor(12) as ex:
+            for ops0, b in ex.map(one_short, extra[:72]):
+                for m in b: bad.append((ops0, m))
+        res.cov["failing_input_search_histories"] = len(extra[:72])
     if bad:
         ops, m = bad[0]
         res.violation(f"C18: {m}", dict(kind="history", ops=ops, complaint=m), True)
@@ -161,6 +201,14 @@ def run(res):
         w = other or f"op[{tie[0]}] '{tie[3][tie[0]] if tie[0] < len(tie[3]) else '?'}' C {tie[1][:2]} / model {tie[2][:2]}"
         res.violation(f"correspondence (order and content hash of every block write) broken on {len(ties)} of {len(specs)} histories: {w}",
                       dict(kind="correspondence", ops=ops, detail=str(w)), False)
+
+def judge_partial(ops, cb, paths, ops0, san, crash):
+    """the operations that completed are judged also when the library did not return from a later one (time limit)"""
+    if san or (crash and "TIMEOUT" not in str(crash)): return []
+    try:
+        return judge_with_cwd(ops, cb, paths, hist.dostype_of(ops0), hist.nblocks_of(ops0))
+    except (IndexError, KeyError, ValueError):
+        return []
 
 def judge_with_cwd(ops, cb, paths, dostype, nblocks):
     """judge() walks only instrumented ops; cwd changes (chdir/parent/toroot) happen in between: pre-compute cwd per op index"""
